@@ -117,6 +117,8 @@ def effect_sites(w, fi):
             base = el
             while isinstance(base, ast.Subscript):
               base = base.value
+            if isinstance(base, ast.Name) and el is base:
+              continue          # binding a local name writes nothing
             d = fn.aliases.dotted(base) if isinstance(base, (ast.Attribute, ast.Name)) else None
             if d is not None and "out_actions" in d.split("."):
               if d.split(".")[-1] == "out_actions" and el is base and \
@@ -197,14 +199,17 @@ def r1_effects(run, w, cg):
         bad.append((fq, kind, node))
     ok = not bad
     wit = None
+    eff_fi, eff_node = fi, None
     if bad:
-      fq, kind, node = bad[0]
+      def depth(b):
+        return chain_to(seen, b[0]).count(" <- ")
+      fq, kind, node = min(bad, key=depth)
+      eff_fi, eff_node = repo.funcs[fq], node
       wit = "%s effect `%s` in %s; call chain: %s" % (kind, short(node, 70), fq, chain_to(seen, fq))
-    run.ob(R1, q, "%d functions reachable from %s (cuts: %s)"
-           % (len(seen), name, ", ".join(c.split(".")[-1] for c in sorted(CUTS))),
+    run.ob(R1, q, "read-only entry point %s (cut at %s)"
+           % (name, ", ".join(c.split(".")[-1] for c in sorted(CUTS))),
            "nothing a read-only call can reach emits a doc action, writes the action log, writes "
-           "document state or marks cells dirty", ok, witness=wit, fi=fi,
-           node=bad[0][2] if bad else None)
+           "document state or marks cells dirty", ok, witness=wit, fi=eff_fi, node=eff_node)
     # which cuts this entry point actually relies on (evidence only)
     used = sorted(c.split(".")[-1] for c in CUTS if c in seen)
     run.note("C29-R1 %s: %d functions, cuts reached: %s" % (name, len(seen), ", ".join(used) or "none"))
@@ -395,14 +400,14 @@ EN = "sandbox/grist/engine.py"
 FP = "sandbox/grist/formula_prompt.py"
 AC = "sandbox/grist/autocomplete_context.py"
 VARIANTS = [
-  ("fetch-table-recalculates", EN,
+  ("fetch-table-refreshes-time", EN,
    """    table = self.tables[table_id]
     column_values = {}
 
     query_cols = []""",
    """    table = self.tables[table_id]
     column_values = {}
-    self._bring_all_up_to_date()
+    self.update_current_time()
 
     query_cols = []""", "C29-R1"),
   ("find-col-removes-stale-objects", EN,
@@ -468,8 +473,7 @@ VARIANTS = [
       self._sync_request = False
       self._undo_to_checkpoint(checkpoint)""",
    """      # processed (e.g. don't get applied to DocStorage), so it's important to reverse them.
-      self._undo_to_checkpoint(checkpoint)
-      self._sync_request = False""", "C29-R2"),
+      self._undo_to_checkpoint(checkpoint)""", "C29-R2"),
   ("update-loop-gives-up", EN,
    """      if self.recompute_map and self._recompute_done_counter == 0:
         raise Exception('data engine not making progress updating formulas')""",
@@ -489,7 +493,7 @@ VARIANTS = [
 """,
    """    self.docmodel.apply_auto_removes()
 """, "C29-R3"),
-  ("trigger-deps-after-recalc", EN,
+  ("no-recalc-after-user-actions", EN,
    """    # Note that recalculations and auto-removals get included after processing all useractions.
     self._bring_all_up_to_date()
 
